@@ -1,4 +1,5 @@
 #!/bin/sh
+[ -d /tmp/wt/ST ] || { mkdir -p /tmp/wt && git -C /repo worktree add -q --detach /tmp/wt/ST HEAD; }
 # usage: rerun_demo.sh <seeded-dir-name> <original TAG> <patch file> : re-confirms a (rebased) seeded patch against the scratch worktree /tmp/wt/ST:
 # the demo must fail with the patch and pass without it. The demo's path dependencies on /tmp/wt/<TAG> are redirected to /tmp/wt/ST.
 D=/verif/seeded/$1; TAG=$2; PATCH=$3
